@@ -1,7 +1,7 @@
 (* C12 - Symlinks are copied as links and never followed.  Statements only. *)
 From RJ Require Import Base.Prelude Base.OrderedPlan Model.Settings Model.Core Model.Fs Model.Paths Model.Sync
   Spec.PlanSpec Spec.Mirror Proofs.FsProofs Proofs.ExecProofs Proofs.PathsProofs Proofs.ConfineProofs Proofs.MirrorProofs
-  Proofs.QuietProofs Proofs.ConfinedMain.
+  Proofs.QuietProofs Proofs.ConfinedMain Proofs.ConfineAll.
 
 (* A symlink is a leaf of every listing: nothing below a symlink is visible, whatever it points at. *)
 Theorem C12_leaf : forall incl f p q t k,
@@ -52,6 +52,17 @@ Theorem C12_never_through : forall now_z incl normalize chunker,
   no_through (d_events (r_dest r)).
 Proof. exact clean_run_confined. Qed.
 
+(* ... and, with the F6a/F6b repairs modelled, in NO run at all - whatever is skipped, whatever fails, however
+   late the boss notices (Proofs/ConfineAll.v). *)
+Theorem C12_never_through_in_any_run : forall now_z incl normalize chunker cfg S D ans bits ls ld ft,
+  valid_listing now_z incl normalize S ls -> valid_listing now_z incl normalize (d_fs D) ld ->
+  parents_first (lkeys (side_listing now_z normalize S ls)) ->
+  parents_first (lkeys (side_listing now_z normalize (d_fs D) ld)) ->
+  wf_fs (d_fs D) -> no_through (d_events D) ->
+  no_through (d_events (r_dest (sync_one now_z normalize chunker cfg S D ans bits ls ld ft))).
+Proof. exact no_run_goes_through_a_link. Qed.
+
 Print Assumptions C12_leaf.
+Print Assumptions C12_never_through_in_any_run.
 Print Assumptions C12_recreate_iff.
 Print Assumptions C12_never_through.
